@@ -1,0 +1,179 @@
+//! Verification-only models, compiled with the cargo feature `verif` (off by default).
+//!
+//! Nothing in here is used by a normal build. With the feature on, `worker.rs` and
+//! `window.rs` take `File`, `fs::remove_file` and `Instant` from this module instead of
+//! `std`, so a checker can run the real transfer loops against an in-memory single-file
+//! file system and a virtual clock, and can start them from an injected state.
+//! Plain Rust, no dependency on any verifier: counterexamples replay natively.
+#![allow(missing_docs)]
+#![allow(static_mut_refs)]
+
+use std::time::Duration;
+
+/// Capacity of the single model file.
+pub const CAP: usize = 16;
+
+/// The model file system: one name, one inode.
+pub struct Fs {
+    /// the name is linked
+    pub exists: bool,
+    /// generation of the inode linked under the name (handles of older generations are orphans)
+    pub gen: u32,
+    pub len: usize,
+    pub data: [u8; CAP],
+    /// a write that would move a handle's position beyond this offset fails (bytes up to it are written)
+    pub fail_at: usize,
+    pub opens: u32,
+    pub creates: u32,
+    pub removes: u32,
+    pub writes: u32,
+}
+
+pub static mut FS: Fs = Fs {
+    exists: false,
+    gen: 0,
+    len: 0,
+    data: [0; CAP],
+    fail_at: CAP,
+    opens: 0,
+    creates: 0,
+    removes: 0,
+    writes: 0,
+};
+
+/// Virtual clock; only the checker moves it.
+pub static mut CLOCK: Duration = Duration::from_secs(i64::MAX as u64);
+
+/// Injected initial block number of a transfer loop (None: the loop's own initial value).
+pub static mut START_BLOCK: Option<u16> = None;
+/// Injected window pre-load: 0 = none, 1 = read `PRELOAD_N` chunks from the file (sender),
+/// 2 = push `PRELOAD_N` chunks of `PRELOAD_CHUNK` bytes taken from `PRELOAD_BYTES` (receiver).
+pub static mut PRELOAD_MODE: u8 = 0;
+pub static mut PRELOAD_N: u16 = 0;
+pub static mut PRELOAD_CHUNK: usize = 0;
+pub static mut PRELOAD_BYTES: [u8; CAP] = [0; CAP];
+
+pub fn start_block(default: u16) -> u16 {
+    unsafe { START_BLOCK.unwrap_or(default) }
+}
+
+pub fn advance_clock(by: Duration) {
+    unsafe {
+        CLOCK = CLOCK.checked_add(by).expect("virtual clock overflow");
+    }
+}
+
+pub mod fs {
+    use super::{CAP, FS};
+    use std::path::Path;
+
+    pub struct File {
+        pub pos: usize,
+        pub gen: u32,
+    }
+
+    impl File {
+        pub fn open<P: AsRef<Path>>(_path: P) -> Result<File, &'static str> {
+            unsafe {
+                if !FS.exists {
+                    return Err("model fs: no such file");
+                }
+                FS.opens += 1;
+                Ok(File { pos: 0, gen: FS.gen })
+            }
+        }
+
+        pub fn create<P: AsRef<Path>>(_path: P) -> Result<File, &'static str> {
+            unsafe {
+                if !FS.exists {
+                    FS.exists = true;
+                    FS.gen += 1;
+                }
+                FS.len = 0;
+                FS.creates += 1;
+                Ok(File { pos: 0, gen: FS.gen })
+            }
+        }
+
+        /// Reads `min(buf.len(), remaining)` bytes; short only at end of file.
+        pub fn read(&mut self, buf: &mut [u8]) -> Result<usize, &'static str> {
+            unsafe {
+                let mut n = 0;
+                while n < buf.len() && self.pos < FS.len && self.pos < CAP {
+                    buf[n] = FS.data[self.pos];
+                    self.pos += 1;
+                    n += 1;
+                }
+                Ok(n)
+            }
+        }
+
+        /// Appends at the handle's position; fails at `FS.fail_at` / `CAP` ("disk full").
+        pub fn write_all(&mut self, buf: &[u8]) -> Result<(), &'static str> {
+            unsafe {
+                FS.writes += 1;
+                if self.gen != FS.gen {
+                    // inode no longer linked under the name: bytes go nowhere visible
+                    return Ok(());
+                }
+                let mut i = 0;
+                while i < buf.len() {
+                    if self.pos >= FS.fail_at || self.pos >= CAP {
+                        return Err("model fs: write failed");
+                    }
+                    FS.data[self.pos] = buf[i];
+                    self.pos += 1;
+                    if self.pos > FS.len {
+                        FS.len = self.pos;
+                    }
+                    i += 1;
+                }
+                Ok(())
+            }
+        }
+    }
+
+    pub fn remove_file<P: AsRef<Path>>(_path: P) -> Result<(), &'static str> {
+        unsafe {
+            if !FS.exists {
+                return Err("model fs: no such file");
+            }
+            FS.exists = false;
+            FS.gen += 1;
+            FS.len = 0;
+            FS.removes += 1;
+            Ok(())
+        }
+    }
+}
+
+pub mod time {
+    use super::CLOCK;
+    use std::ops::Sub;
+    use std::time::Duration;
+
+    #[derive(Clone, Copy, PartialEq, Eq, PartialOrd, Ord, Debug)]
+    pub struct Instant(pub Duration);
+
+    impl Instant {
+        pub fn now() -> Instant {
+            Instant(unsafe { CLOCK })
+        }
+
+        pub fn elapsed(&self) -> Duration {
+            unsafe { CLOCK }.checked_sub(self.0).unwrap_or_default()
+        }
+    }
+
+    impl Sub<Duration> for Instant {
+        type Output = Instant;
+
+        fn sub(self, other: Duration) -> Instant {
+            Instant(
+                self.0
+                    .checked_sub(other)
+                    .expect("overflow when subtracting duration from instant"),
+            )
+        }
+    }
+}
